@@ -311,6 +311,9 @@ class DictObj:
   def __vcanon__(self):
     return dict(self.__dict__)
 
+  def __vchildren__(self):
+    return [(('a', k), v) for k, v in self.__dict__.items()]
+
   def __repr__(self):
     return f'DictObj({self.__dict__!r})'
 
